@@ -15,7 +15,7 @@ def classify(pid, viols, trace_path, describe):
         else:
             new.append((ln, clause))
     for fid, ln in sorted(seen_known.items()):
-        print("KNOWN-FINDING: property=%s %s: %s (first at trace line %d)" % (pid, fid, known[fid]["what"], ln), flush=True)
+        print("KNOWN-FINDING: property=%s %s: %s" % (pid, fid, known[fid]["what"]), flush=True)
     replay = None
     if new:
         d = vf.rundir(pid, "violations")
